@@ -7,7 +7,7 @@ open EupsModel EupsModel.Deps
 /-- a non-recursive `Table.dependencies` over a table without unsetup lines makes no nested call -/
 theorem depsLoop_nonrec_some (db : Db) (req : Required)
     (recur : Prod → Nat → St → Option (List Entry × St)) (fresh : Prod → Option (List Str))
-    (top : Prod) (depth : Nat) :
+    (top : Prod) (depth : Nat) (hm : ∀ p, db.tableMissing p = false) :
     ∀ ds acc st, (∀ d ∈ ds, d.unsetup = false) →
       ∃ r, depsLoop db req recur fresh top false depth ds acc st = some r := by
   intro ds
@@ -15,21 +15,22 @@ theorem depsLoop_nonrec_some (db : Db) (req : Required)
   | nil => intro acc st _; exact ⟨_, rfl⟩
   | cons d ds ih =>
     intro acc st hu
-    rw [depsLoop_cons_setup _ _ _ _ _ _ _ _ _ _ _ (hu d (by simp))]
+    rw [depsLoop_cons_setup _ _ _ _ _ _ _ _ _ _ _ (hu d (by simp)) hm]
     have hu' : ∀ d ∈ ds, d.unsetup = false := fun x hx => hu x (by simp [hx])
     cases hr : resolve db req d with
     | none => exact ih _ _ hu'
     | some p => simp only [Bool.false_and, Bool.false_eq_true, if_false]; exact ih _ _ hu'
 
 theorem directDeps_some (db : Db) (hns : NoUnsetup db) (p : Prod) (expand : Bool) :
-    ∃ deps, directDeps db p expand = some deps := by
+    ∃ deps, directDeps db p expand = .ok deps := by
   unfold directDeps
   split
-  · have hpos : 0 < db.fuel := by unfold Db.fuel; exact Nat.mul_pos (by omega) (by omega)
-    have hf : db.fuel = (db.fuel - 1) + 1 := by omega
-    rw [hf]
+  · simp only [tableMissing_false hns p, Bool.false_eq_true, if_false]
+    have hpos : 0 < db.fuel := by unfold Db.fuel; exact Nat.mul_pos (by omega) (by omega)
+    obtain ⟨k, hk⟩ : ∃ k, db.fuel = k + 1 := ⟨db.fuel - 1, by omega⟩
+    rw [hk]
     unfold depsOf
-    obtain ⟨r, hr⟩ := depsLoop_nonrec_some db [] _ _ p 0 (db.table p) [] _ (table_noUnsetup hns p)
+    obtain ⟨r, hr⟩ := depsLoop_nonrec_some db [] _ _ p 0 (tableMissing_false hns) (db.table p) [] _ (table_noUnsetup hns p)
     rw [hr]; exact ⟨_, rfl⟩
   · exact ⟨_, rfl⟩
 
@@ -154,6 +155,48 @@ theorem collect_fuel (db : Db) (hns : NoUnsetup db) (sb : Option SetupBy) (force
                   exact ⟨by simp, by intro l seen' h; simp at h; rw [← h.2]; exact fun _ hx => hx⟩
             · simp only [collectLoop]
               exact ⟨by simp, by intro l seen' h; simp at h; rw [← h.2]; exact fun _ hx => hx⟩
+
+/-- on plain tables `_remove` fails only by refusing, by not finding a product, or by running out of fuel -/
+theorem collect_error_kinds (db : Db) (hns : NoUnsetup db) (sb : Option SetupBy) (force : Bool) (dn : Option Str)
+    (top : Str × Str) :
+    ∀ f name ver recursive seen e, collect db sb force dn top f name ver recursive seen = .error e →
+      e = .refused ∨ e = .notFound ∨ e = .outOfFuel := by
+  intro f
+  induction f with
+  | zero => intro name ver recursive seen e h; simp [collect] at h; exact Or.inr (Or.inr h.symm)
+  | succ k ih =>
+    intro name ver recursive seen e h
+    unfold collect at h
+    split at h
+    · simp at h
+    · split at h
+      · simp at h; exact Or.inr (Or.inl h.symm)
+      · rename_i p hp
+        simp only at h
+        obtain ⟨deps, hdeps⟩ := directDeps_some db hns p (recursive && !seen.contains (prodkey p))
+        rw [hdeps] at h
+        simp only at h
+        have loop : ∀ qs acc sn e', collectLoop sb force top recursive
+            (fun q sn' => collect db sb force dn top k q.name q.ver (q.name != name) sn') qs acc sn = .error e' →
+            e' = .refused ∨ e' = .notFound ∨ e' = .outOfFuel := by
+          intro qs
+          induction qs with
+          | nil => intro acc sn e' h'; simp [collectLoop] at h'
+          | cons q qs ihq =>
+            intro acc sn e' h'
+            rw [collectLoop_cons] at h'
+            split at h'
+            · simp at h'; exact Or.inl h'.symm
+            · split at h'
+              · cases hq : collect db sb force dn top k q.name q.ver (q.name != name) sn with
+                | error e'' =>
+                  simp only [hq] at h'
+                  injection h' with h'
+                  subst h'
+                  exact ih _ _ _ _ _ hq
+                | ok r => obtain ⟨sub, sn2⟩ := r; simp only [hq] at h'; exact ihq _ _ _ h'
+              · exact ihq _ _ _ h'
+        exact loop _ _ _ _ h
 
 theorem removeFuel_enough (s : State) : unopened s.db ([] : Seen) + 2 ≤ s.removeFuel := by
   have := unopened_le s.db ([] : Seen)
